@@ -60,11 +60,24 @@ class FaultFile(TraceFile):
         self.leak = leak
         self.calls = 0
         self.closed_called = False
+        self.fault_site = None
+
+    def _site(self):
+        """module.py:function of the mutagen frame that made this file-object call"""
+        import sys
+        f = sys._getframe(2)
+        while f is not None:
+            fn = f.f_code.co_filename
+            if "/mutagen/" in fn:
+                return "%s:%s" % (fn.split("/mutagen/")[-1], f.f_code.co_name)
+            f = f.f_back
+        return "?"
 
     def _tick(self):
         i = self.calls
         self.calls += 1
         if self.fail_at is not None and i == self.fail_at:
+            self.fault_site = self._site()
             raise IOError(self.errno_, "injected fault at call %d" % i)
         return i
 
@@ -73,6 +86,7 @@ class FaultFile(TraceFile):
         i = self._tick()
         if self.short is not None and self.short[0] == i and (n < 0 or n > self.short[1]):
             n = self.short[1]
+            self.fault_site = self._site()
         return self._f.read(n)
 
     def seek(self, off, whence=0):
